@@ -942,6 +942,13 @@ def _readUrl(url, fetcher=None, overrideEncoding=None, parentEncoding=None):
     if isinstance(r, (tuple, list)) and len(r) == 2 and r[1] is not None:
         httpEncoding, content = r
 
+        if not isinstance(content, (text_type, bytes, bytearray)) or not (
+                httpEncoding is None or isinstance(httpEncoding, string_type)):
+            # whatever a fetcher returns: no content
+            log.warn('Unexpected result of fetcher for %r: %r' % (url, r),
+                     neverraise=True)
+            return None, None, None
+
         if overrideEncoding:
             enctype = 0  # 0. override encoding
             encoding = overrideEncoding
@@ -979,8 +986,9 @@ def _readUrl(url, fetcher=None, overrideEncoding=None, parentEncoding=None):
                     # at least in GAE
                     decodedCssText = content.decode(encoding if encoding else 'utf-8')
 
-            except (UnicodeDecodeError, LookupError) as e:
+            except (UnicodeDecodeError, LookupError, TypeError) as e:
                 # cannot be decoded, or labelled with an unknown encoding
+                # or with a codec which is no text encoding (TypeError)
                 log.warn(e, neverraise=True)
                 decodedCssText = None
 
